@@ -594,6 +594,10 @@ func (ex *Exec) readElem(st *State, s *SliceVal, i *Term) Value {
 	if r == nil {
 		return ex.zeroValue(s.Elem)
 	}
+	if _, oob := r.(*oobVal); oob && classify(s.Elem) == KIface {
+		// beyond every alternative's length: the bounds check makes the path dead; any item will do
+		return opaqueItem(Fresh("oob", SItem))
+	}
 	return r
 }
 
